@@ -221,6 +221,11 @@ def check_tree(t, shape, assign, pairs):
         if m.par[i] is not None:
             nodes[i].parent = nodes[m.par[i]]
     ctx = {"shape": shape, "assign": list(assign)}
+    if sum(assign) % 2 == 0:
+        # every navigation attribute has been read before the export (whatever the mixin remembers is not node data)
+        for nd in nodes:
+            (nd.size, nd.height, nd.depth, nd.path, nd.root, nd.leaves, nd.descendants, nd.ancestors, nd.siblings, nd.is_leaf, nd.is_root)
+        t.c["exports_after_navigation_reads"] += 1
     for start in range(m.n):
         t.c["states"] += 1
         h = m.height(start)
@@ -281,5 +286,5 @@ def run(tier):
                 "non-empty attributes or more than one node" % (npart, len(VALUES), nfull, len(OPTIONS)),
         "bounds": {"full_upto": nfull, "max_nodes": npart, "trees": len(items)},
     }
-    return {"tally": t, "coverage": cov, "guards": ("positional_calls", "reconfigured_exports", "nontrivial", "imports", "config_pairs", "importer_reuse_checks", "import_input_variants"),
+    return {"tally": t, "coverage": cov, "guards": ("exports_after_navigation_reads", "positional_calls", "reconfigured_exports", "nontrivial", "imports", "config_pairs", "importer_reuse_checks", "import_input_variants"),
             "assumptions": ["JSON value domain of %d dictionaries; NaN/Infinity are not JSON and excluded" % len(VALUES)]}
